@@ -143,6 +143,8 @@ Fixpoint rename_parents (ps : list str) (bs : list mbox) : option (list mbox) :=
            end
   end.
 
+(** renameInboxPerUser (after "fix: RENAME INBOX keeps the UID counter with the moved
+    messages"): the new row inherits INBOX's uid_next, the links move with their uids *)
 Definition rename_inbox (bs : list mbox) (new : str) : list mbox * res :=
   if exists_box bs new then (bs, RNo)
   else match find (fun b => str_eqb (mb_name b) INBOX) bs with
@@ -152,7 +154,7 @@ Definition rename_inbox (bs : list mbox) (new : str) : list mbox * res :=
            | None => (bs, RNo)
            | Some bs1 =>
                (map (fun b => if str_eqb (mb_name b) INBOX then MkBox INBOX [] (mb_next b)
-                              else if str_eqb (mb_name b) new then MkBox new (mb_msgs ib) 1
+                              else if str_eqb (mb_name b) new then MkBox new (mb_msgs ib) (mb_next ib)
                               else b) bs1, ROk)
            end
        end.
